@@ -1093,7 +1093,11 @@ impl Tokenizer {
             self.raw_tag = String::from_utf8(self.reader[self.data.start..self.data.end].to_vec())?.to_lowercase();
         }
 
-        if self.err.is_none() && self.reader[self.raw.end - 2] == b'/' {
+        // A `/` which ends an unquoted attribute value (`<a href=/docs/>`) belongs to that value, it does not close the tag
+        let value = &self.pending_attribute[1];
+        let slash_in_value = value.start < value.end && value.end == self.raw.end - 1 && value.start > self.data.start;
+
+        if self.err.is_none() && self.reader[self.raw.end - 2] == b'/' && !slash_in_value {
             return Ok(SelfClosingTagToken);
         }
 
